@@ -1,6 +1,6 @@
 /-
 M-Proto, concrete runs of the host automaton (C16): a conforming two-plugin run, and
-the witness for finding D31 (a goodbye failure makes the host fail without naming the
+the witness for finding D41 (a goodbye failure makes the host fail without naming the
 plugin). Everything here is evaluated by the kernel (`decide`).
 -/
 import ThriftVerif.Proto.Host
@@ -40,7 +40,7 @@ def plugB : Plugin :=
 def cfgOK : Cfg := { plugins := [plugA, { plugB with bye := ⟨[okBye], false⟩ }], coreOk := true,
                      coreFiles := [(['m'], [0])], ord := [0, 1] }
 
-def cfgD31 : Cfg := { plugins := [plugA, plugB], coreOk := true, coreFiles := [(['m'], [0])], ord := [1, 0] }
+def cfgD41 : Cfg := { plugins := [plugA, plugB], coreOk := true, coreFiles := [(['m'], [0])], ord := [1, 0] }
 
 set_option maxRecDepth 100000 in
 /-- a conforming run: exit ok, files of core and plugin handed to the write loop, plugin `a` sees
@@ -59,12 +59,12 @@ theorem conforming_run :
   decide
 
 set_option maxRecDepth 100000 in
-/-- finding D31: plugin `b` fails only at goodbye; the run fails, the files were written,
+/-- finding D41: plugin `b` fails only at goodbye; the run fails, the files were written,
 and no plugin is named by the error output. -/
 theorem goodbye_failure_unnamed_run :
-    (run cfgD31).exit = .fail ∧ (run cfgD31).wrote.isSome = true ∧
-    (run cfgD31).recs.map (·.errs) = [[], [.goodbye]] ∧
-    (run cfgD31).recs.map namedIn = [false, false] := by
+    (run cfgD41).exit = .fail ∧ (run cfgD41).wrote.isSome = true ∧
+    (run cfgD41).recs.map (·.errs) = [[], [.goodbye]] ∧
+    (run cfgD41).recs.map namedIn = [false, false] := by
   decide
 
 end ThriftVerif.Proto
